@@ -14,9 +14,9 @@ a big-step fuel interpreter `evalE / evalS` with CPython's behaviour on the frag
                                    sides in order, then allocate the finished object" is observationally the same
   * `isinstance(x, C)`, `x is None`, `x is not None`, `not`, `and`, `or` (operand value, short-circuit), `==`
     (numeric across int/bool, structural on str, identity on objects), `+` (int/bool → int, str+str → str,
-    anything else TypeError), `probe(k, e)` (records the value of `e`, returns None)
+    anything else TypeError), `-` (int/bool → int), `<` (int/bool numerically, str lexicographically, else TypeError), `probe(k, e)` (records the value of `e`, returns None)
   * statements: `x: T = e`, `x = e`, `e.f = e'` (right-hand side first, as CPython does), expression statement,
-    `return e`, `if/else` (elif = nested), `while`, sequencing, `pass`
+    `return e`, `if/else` (elif = nested), `while` with `break`/`continue`, sequencing, `pass`
   * reading a local that was never assigned is `UnboundLocalError` (`Fail.unbound`) — not one of the failures
     the property speaks about.
 
@@ -58,6 +58,8 @@ inductive Expr where
   | or (a b : Expr)
   | eq (a b : Expr)
   | add (a b : Expr)
+  | sub (a b : Expr)
+  | lt (a b : Expr)
   | probe (k : Nat) (e : Expr)
 deriving Repr, Inhabited
 
@@ -71,6 +73,8 @@ inductive Stmt where
   | ite (c : Expr) (t e : Stmt)
   | while (c : Expr) (b : Stmt)
   | seq (a b : Stmt)
+  | brk
+  | cont
 deriving Repr, Inhabited
 
 structure FuncDef where
@@ -174,6 +178,8 @@ abbrev Store := List (Option Val)
 inductive Ctl where
   | normal (σ : Store)
   | ret (v : Val)
+  | brk (σ : Store)                       -- `break` on its way to the enclosing loop
+  | cont (σ : Store)                      -- `continue`
 deriving DecidableEq, Repr, Inhabited
 
 instance {ε α : Type} [DecidableEq ε] [DecidableEq α] : DecidableEq (Except ε α)
@@ -233,6 +239,24 @@ def addVal : Val → Val → Option Val
     | some x, some y => some (.int (x + y))
     | _, _ => none
 
+def subVal : Val → Val → Option Val
+  | a, b => match toInt? a, toInt? b with
+    | some x, some y => some (.int (x - y))
+    | _, _ => none
+
+/-- lexicographic order on code points (Python's `str.__lt__`) -/
+def ltList : List Nat → List Nat → Bool
+  | [], [] => false
+  | [], _ :: _ => true
+  | _ :: _, [] => false
+  | a :: r, b :: t => if a < b then true else if b < a then false else ltList r t
+
+def ltVal : Val → Val → Option Bool
+  | .str a, .str b => some (ltList a b)
+  | a, b => match toInt? a, toInt? b with
+    | some x, some y => some (decide (x < y))
+    | _, _ => none
+
 def setField (f : Nat) (v : Val) : List (Nat × Val) → List (Nat × Val)
   | [] => [(f, v)]
   | (f', w) :: r => if f' = f then (f, v) :: r else (f', w) :: setField f v r
@@ -287,6 +311,7 @@ def callBody (ev : Store → Stmt → M Ctl) (fd : FuncDef) (args : List Val) : 
   M.bind (ev (initStore fd args) fd.body) fun
     | .normal _ => M.pure .none
     | .ret v => M.pure v
+    | _ => M.fail .stuck                  -- `break`/`continue` outside a loop: a SyntaxError in Python
 
 /-! ## The interpreter (structural recursion on the fuel; every recursive call uses one unit) -/
 
@@ -331,6 +356,16 @@ def evalE : Nat → Prog → Store → Expr → M Val
         match addVal v w with
         | some r => M.pure r
         | none => M.fail .typeError
+    | .sub a b =>
+        M.bind (evalE n P σ a) fun v => M.bind (evalE n P σ b) fun w =>
+        match subVal v w with
+        | some r => M.pure r
+        | none => M.fail .typeError
+    | .lt a b =>
+        M.bind (evalE n P σ a) fun v => M.bind (evalE n P σ b) fun w =>
+        match ltVal v w with
+        | some r => M.pure (.bool r)
+        | none => M.fail .typeError
     | .probe k e => M.bind (evalE n P σ e) fun v => M.bind (logProbe k v) fun _ => M.pure .none
 
 def evalArgs : Nat → Prog → Store → List Expr → M (List Val)
@@ -366,12 +401,16 @@ def evalS : Nat → Prog → Store → Stmt → M Ctl
         if truthy v then
           M.bind (evalS n P σ b) fun
             | .normal σ' => evalS n P σ' (.while c b)
+            | .cont σ' => evalS n P σ' (.while c b)
+            | .brk σ' => M.pure (.normal σ')
             | .ret w => M.pure (.ret w)
         else M.pure (.normal σ)
     | .seq a b =>
         M.bind (evalS n P σ a) fun
           | .normal σ' => evalS n P σ' b
-          | .ret w => M.pure (.ret w)
+          | other => M.pure other
+    | .brk => M.pure (.brk σ)
+    | .cont => M.pure (.cont σ)
 end
 
 /-- call function `fd` on argument values -/
